@@ -30,13 +30,15 @@ type C12Chunk struct {
 }
 
 type C12Scenario struct {
-	Cfg     StoreCfg     `json:"cfg"`
-	Tail    int          `json:"tail"`    // prefilled run is [tail, tail+prefill-1]; prefill 0 = empty store
-	Prefill int          `json:"prefill"` // 0..6
-	Readers []C12Reader  `json:"readers"`
-	Writers [][]C12Chunk `json:"writers"`
-	Tape    []int        `json:"tape"`
-	DSYield bool         `json:"ds_yield,omitempty"` // datastore accesses are yield points too
+	Cfg         StoreCfg     `json:"cfg"`
+	Tail        int          `json:"tail"`    // prefilled run is [tail, tail+prefill-1]; prefill 0 = empty store
+	Prefill     int          `json:"prefill"` // 0..6
+	Readers     []C12Reader  `json:"readers"`
+	Writers     [][]C12Chunk `json:"writers"`
+	Tape        []int        `json:"tape"`
+	DSYield     bool         `json:"ds_yield,omitempty"` // datastore accesses are yield points too
+	DSReadsOnly bool         `json:"ds_reads_only,omitempty"`
+	Canonical   bool         `json:"canonical,omitempty"` // parked goroutines ordered by role (schedule enumeration)
 }
 
 func genC12(t *rapid.T) C12Scenario {
@@ -114,10 +116,18 @@ func runC12(t *testing.T, s C12Scenario) (res Result) {
 		synctest.Wait()
 
 		sc := sched.New()
+		sc.Canonical = s.Canonical
 		store.VerifSetYield(sc.Yield)
 		defer store.VerifSetYield(nil)
 		if s.DSYield {
 			e.mem.Yield = sc.Yield
+			if s.DSReadsOnly {
+				e.mem.Yield = func(p string) {
+					if p != "ds:write" {
+						sc.Yield(p)
+					}
+				}
+			}
 			defer func() { e.mem.Yield = nil }()
 		}
 
@@ -194,6 +204,10 @@ func runC12(t *testing.T, s C12Scenario) (res Result) {
 		}
 		finished := sc.Run(s.Tape, done, 2000, 10*time.Millisecond)
 		sc.Off()
+		for _, st := range sc.Trace {
+			res.TraceK = append(res.TraceK, st.K)
+			res.TraceN = append(res.TraceN, len(st.Others)+1)
+		}
 		if !finished {
 			res.failf("HARNESS: schedule did not finish within the step budget")
 			return
@@ -293,5 +307,44 @@ func runC12(t *testing.T, s C12Scenario) (res Result) {
 	return res
 }
 
-func TestC12(t *testing.T)       { check(t, "C12", genC12, runC12) }
+func TestC12(t *testing.T) { check(t, "C12", genC12, runC12) }
+
+// c12EnumConfigs: tiny configurations whose schedules are enumerated completely.
+//
+//	0: store [1,2]; batch 4; reader GetByHeight(3); writer Append(3)
+//	1: store [1,2]; batch 1; reader GetByHeight(4); writer Append(3) then Append(4)
+//	2: empty store; batch 4; reader GetByHeight(1); writer Append(1,2)
+//	3: store [1,2]; batch 4; reader GetByHeight(4); writers Append(3) and Append(4)
+//	4: store [1,2]; batch 2; reader GetByHeight(3) cancelled at step 4; reader GetByHeight(4); writer Append(3,4)
+//	5: as 0 with batch 1 (the flush loop writes the header out)
+//	6: store [1,2]; batch 4; readers GetByHeight(3), GetByHeight(4); writer Append(3,4)
+//	7: store [1,2]; batch 4; readers GetByHeight(3), GetByHeight(5) (never appended: must keep waiting); writer Append(3)
+//	8: store [4,5]; batch 4; readers GetByHeight(3) (below the tail: ErrNotFound), GetByHeight(6); writer Append(6)
+var c12EnumConfigs = []C12Scenario{
+	{Cfg: StoreCfg{Batch: 4, StoreCache: 8, IndexCache: 8}, Tail: 1, Prefill: 2,
+		Readers: []C12Reader{{Off: 0, CancelAt: -1}}, Writers: [][]C12Chunk{{{Off: 0, N: 1}}}},
+	{Cfg: StoreCfg{Batch: 1, StoreCache: 8, IndexCache: 8}, Tail: 1, Prefill: 2,
+		Readers: []C12Reader{{Off: 1, CancelAt: -1}}, Writers: [][]C12Chunk{{{Off: 0, N: 1}, {Off: 1, N: 1}}}},
+	{Cfg: StoreCfg{Batch: 4, StoreCache: 8, IndexCache: 8}, Tail: 1, Prefill: 0,
+		Readers: []C12Reader{{Off: 0, CancelAt: -1}}, Writers: [][]C12Chunk{{{Off: 0, N: 2}}}},
+	{Cfg: StoreCfg{Batch: 4, StoreCache: 8, IndexCache: 8}, Tail: 1, Prefill: 2,
+		Readers: []C12Reader{{Off: 1, CancelAt: -1}}, Writers: [][]C12Chunk{{{Off: 0, N: 1}}, {{Off: 1, N: 1}}}},
+	{Cfg: StoreCfg{Batch: 2, StoreCache: 8, IndexCache: 8}, Tail: 1, Prefill: 2,
+		Readers: []C12Reader{{Off: 0, CancelAt: 4}, {Off: 1, CancelAt: -1}}, Writers: [][]C12Chunk{{{Off: 0, N: 2}}}},
+	{Cfg: StoreCfg{Batch: 1, StoreCache: 8, IndexCache: 8}, Tail: 1, Prefill: 2,
+		Readers: []C12Reader{{Off: 0, CancelAt: -1}}, Writers: [][]C12Chunk{{{Off: 0, N: 1}}}},
+	{Cfg: StoreCfg{Batch: 4, StoreCache: 8, IndexCache: 8}, Tail: 1, Prefill: 2,
+		Readers: []C12Reader{{Off: 0, CancelAt: -1}, {Off: 1, CancelAt: -1}}, Writers: [][]C12Chunk{{{Off: 0, N: 2}}}},
+	{Cfg: StoreCfg{Batch: 4, StoreCache: 8, IndexCache: 8}, Tail: 1, Prefill: 2,
+		Readers: []C12Reader{{Off: 0, CancelAt: -1}, {Off: 2, CancelAt: -1}}, Writers: [][]C12Chunk{{{Off: 0, N: 1}}}},
+	{Cfg: StoreCfg{Batch: 4, StoreCache: 8, IndexCache: 8}, Tail: 4, Prefill: 2,
+		Readers: []C12Reader{{Off: -3, CancelAt: -1}, {Off: 0, CancelAt: -1}}, Writers: [][]C12Chunk{{{Off: 0, N: 1}}}},
+}
+
+func TestC12Enum(t *testing.T) {
+	runEnum(t, "C12", c12EnumConfigs, func(s C12Scenario, tape []int) C12Scenario {
+		s.Tape, s.DSYield, s.DSReadsOnly, s.Canonical = tape, true, true, true
+		return s
+	}, runC12, map[int]bool{0: true, 1: true, 2: true, 3: true, 4: true, 5: true, 6: true, 7: true, 8: true})
+}
 func TestC12Replay(t *testing.T) { replay(t, "C12", runC12) }
